@@ -55,14 +55,14 @@ type poolModel struct {
 	pendingLimit int
 	waitingLimit int
 
-	nonce     []uint64             // state nonce per account, as reported by the application
-	slots     []map[uint64]*slot   // per account
-	ext       []txid               // accepted ext txs in acceptance order
-	extMust   map[txid]bool        // ext tx certainly held
-	committed map[txid]bool        // contained in a committed block
-	submitted map[txid]bool        // ever handed to ReceiveTx
-	resub     map[txid]bool        // accepted by ReceiveTx after a block that contained it
-	ethOf     map[txid]ethID       // decoding of eth ids
+	nonce     []uint64           // state nonce per account, as reported by the application
+	slots     []map[uint64]*slot // per account
+	ext       []txid             // accepted ext txs in acceptance order
+	extMust   map[txid]bool      // ext tx certainly held
+	committed map[txid]bool      // contained in a committed block
+	submitted map[txid]bool      // ever handed to ReceiveTx
+	resub     map[txid]bool      // accepted by ReceiveTx after a block that contained it
+	ethOf     map[txid]ethID     // decoding of eth ids
 }
 
 func newPoolModel(nAcct, pendingLimit, waitingLimit int) *poolModel {
